@@ -2,7 +2,7 @@
 from checks_common import three
 
 CHECK = {
-    "runs": three("c09_epoch", [], scales=(0.2, 0.15, 1.0)) + [
+    "runs": [dict(r, scale_quick=round(r["scale"] * 2, 3)) for r in three("c09_epoch", [], scales=(0.2, 0.15, 1.0))] + [
         # store-buffering litmus of the entry fence (real hardware timing: -O2 build only); added after the
         # independently seeded change C09-a1 (seq_cst -> acq_rel fence) escaped the EBR episodes
         {"harness": "c09_litmus", "variant": "plain", "scale": 1.0, "args": []},
